@@ -167,13 +167,13 @@ PLAN["C17"] = dict(
     level_text="PARTIAL: the two-event hand-shake between the recording thread and the writer thread, and the staging of buffers; file formats are not decided. Thread-modular (rely/guarantee) "
                "contracts: the writer's steps are read off the real body of DataCollection.write (write pass, then its Event operations in program order) as a transition relation over "
                "(write_to_disk, write_finished, writer pc, 'staged and unwritten'); its reflexive-transitive closure is applied as interference before EVERY shared access of the recording "
-               "thread (Event operations, stage_for_write / stop / close of a data set) while DataCollection.update / trigger_write / stop and DataSet.stage_for_write / write / stop are verified from "
+               "thread (Event operations, stage_for_write / stop / close / start of a data set) while DataCollection.start / update / trigger_write / stop / pause / resume and DataSet.stage_for_write / write / stop are verified from "
                "their real source by pyvc/z3. Obligations: the recording thread touches a data set's writer-side state only in states from which no writer step sequence enters the write pass; it "
                "stages only over an empty (written) write buffer; conservation view per data set - accepted == handed-to-formatter ++ write buffer ++ read buffer, with `accepted` growing by exactly "
                "the messages whose type the data set selects while recording and not paused, in arrival order - is preserved by every function and by the writer's pass; after stop() every accepted "
                "message has been handed to the formatter (once, in order); update / trigger_write / stop re-establish the protocol invariant and every writer step preserves it (z3, finite). For every "
                "interleaving at the granularity of the Event operations, any number of data sets, any message sequence and deadline placement. NOT decided: what the formatters write for a message "
-               "(raw / json / quicklogger encodings), the quicklogger reader, DataFormatter.write's writelines (assumed: one record per message in list order), subdivide(), pause/resume timing.",
+               "(raw / json / quicklogger encodings), the quicklogger reader, DataFormatter.write's writelines (assumed: one record per message in list order), subdivide(); start() assumes the writer has finished the Event operations of its last pass.",
     technique="contract-based, thread-modular: rely = closure of the writer's extracted step relation, applied as a contract prelude at every shared access; VCs from the real source by pyvc, discharged by z3",
     assumptions=ENV_ASSUMPTIONS[:1],
     explanation="hand-shake ownership + buffer staging for all interleavings; formatters, file contents, the quicklogger reader, pause/resume timing and restart-after-stop are not decided")
